@@ -164,48 +164,44 @@ def K_sqlite : KwTable := kwTable Lex_sqlite.rulesC Lex_sqlite.idAlts
 def K_mysql : KwTable := kwTable Lex_mysql.rulesC Lex_mysql.idAlts
 def K_mindsdb : KwTable := kwTable Lex_mindsdb.rulesC Lex_mindsdb.idAlts
 
-/-- KF-C04-6 -/
-def kfWords_mindsdb : List (List Char) :=
-  [['M','L','_','E','N','G','I','N','E'], ['K','N','O','W','L','E','D','G','E','_','B','A','S','E'],
-   ['P','R','I','M','A','R','Y','_','K','E','Y'], ['P','E','R','S','I','S','T','_','O','N','L','Y'],
-   ['S','E','A','R','C','H','_','P','A','T','H']]
-def kfWords_other : List (List Char) := [['P','E','R','S','I','S','T','_','O','N','L','Y']]
-
-/-- the offending keyword words are *exactly* the listed ones (a new offender, or a keyword regex of an
-unforeseen shape, breaks this obligation; a repaired one does too, then the list must shrink) -/
-theorem phi4_mindsdb : offenders K_mindsdb reservedL = kfWords_mindsdb := by decide +kernel
-theorem phi4_mysql : offenders K_mysql reservedL = kfWords_other := by decide +kernel
-theorem phi4_sqlite : offenders K_sqlite reservedL = kfWords_other := by decide +kernel
+/-- **Φ4** (fixed: 6326372 reserved ML_ENGINE, KNOWLEDGE_BASE, PRIMARY_KEY, PERSIST_ONLY, SEARCH_PATH): in every
+dialect NO single-word keyword is both unreserved and not an `id` alternative (a new such keyword, or a
+keyword regex of an unforeseen shape, breaks this obligation) -/
+theorem phi4_mindsdb : offenders K_mindsdb reservedL = [] := by decide +kernel
+theorem phi4_mysql : offenders K_mysql reservedL = [] := by decide +kernel
+theorem phi4_sqlite : offenders K_sqlite reservedL = [] := by decide +kernel
 
 /-! ## T4.3 identifiers -/
 
-/-- **T4.3, partial (generic).** If every keyword word of the dialect is reserved, an `id` alternative or one
-of the words `kf` (Φ4 minus the known findings), then every list of parts that are non-empty, contain no
-back-quote (KF-C04-7) and are not (case-insensitively) one of the `kf` words (KF-C04-6) prints to a path that
-lexer + `id` / `identifier` actions + `path_str_to_parts` read back as the same parts: case preserved, split
-only at unquoted dots, keywords / digits-first / dotted / blank / non-ASCII parts all included. -/
+/-- **T4.3 (generic).** If every keyword word of the dialect is reserved, an `id` alternative or one of the words
+`kf` (`kf = []` on the current tree), then every list of parts that are non-empty, contain no back-quote
+(KF-C04-7) and are not (case-insensitively) one of the `kf` words prints to a path that lexer + `id` /
+`identifier` actions + `path_str_to_parts` read back as the same parts: case preserved, split only at unquoted
+dots, keywords / digits-first / dotted / blank / non-ASCII parts all included. -/
 theorem C04_identifier_partial (K : KwTable) (reserved kf : List (List Char))
     (h : Ident.phi4 K reserved kf = true) (parts : List (List Char)) (hne : parts ≠ [])
     (hp : ∀ p ∈ parts, Ident.PartOK kf p) :
     lexIdentPath K (partsToStr reserved parts) = some parts :=
   Ident.ident_roundtrip K reserved kf h parts hne hp
 
-theorem phi4h_mindsdb : Ident.phi4 K_mindsdb reservedL kfWords_mindsdb = true := by decide +kernel
-theorem phi4h_mysql : Ident.phi4 K_mysql reservedL kfWords_other = true := by decide +kernel
-theorem phi4h_sqlite : Ident.phi4 K_sqlite reservedL kfWords_other = true := by decide +kernel
+theorem phi4h_mindsdb : Ident.phi4 K_mindsdb reservedL [] = true := by decide +kernel
+theorem phi4h_mysql : Ident.phi4 K_mysql reservedL [] = true := by decide +kernel
+theorem phi4h_sqlite : Ident.phi4 K_sqlite reservedL [] = true := by decide +kernel
 
-theorem C04_identifier_mindsdb (parts : List (List Char)) (hne : parts ≠ [])
-    (hp : ∀ p ∈ parts, Ident.PartOK kfWords_mindsdb p) :
+/-- representable part: non-empty, no back-quote (the only exclusion left: KF-C04-7) -/
+abbrev PartRep (p : List Char) : Prop := p ≠ [] ∧ ∀ x ∈ p, x ≠ '`'
+
+theorem partOK_of_rep {p : List Char} (h : PartRep p) : Ident.PartOK [] p := ⟨h.1, h.2, rfl⟩
+
+theorem C04_identifier_mindsdb (parts : List (List Char)) (hne : parts ≠ []) (hp : ∀ p ∈ parts, PartRep p) :
     lexIdentPath K_mindsdb (partsToStr reservedL parts) = some parts :=
-  C04_identifier_partial _ _ _ phi4h_mindsdb parts hne hp
-theorem C04_identifier_mysql (parts : List (List Char)) (hne : parts ≠ [])
-    (hp : ∀ p ∈ parts, Ident.PartOK kfWords_other p) :
+  C04_identifier_partial _ _ _ phi4h_mindsdb parts hne fun p h => partOK_of_rep (hp p h)
+theorem C04_identifier_mysql (parts : List (List Char)) (hne : parts ≠ []) (hp : ∀ p ∈ parts, PartRep p) :
     lexIdentPath K_mysql (partsToStr reservedL parts) = some parts :=
-  C04_identifier_partial _ _ _ phi4h_mysql parts hne hp
-theorem C04_identifier_sqlite (parts : List (List Char)) (hne : parts ≠ [])
-    (hp : ∀ p ∈ parts, Ident.PartOK kfWords_other p) :
+  C04_identifier_partial _ _ _ phi4h_mysql parts hne fun p h => partOK_of_rep (hp p h)
+theorem C04_identifier_sqlite (parts : List (List Char)) (hne : parts ≠ []) (hp : ∀ p ∈ parts, PartRep p) :
     lexIdentPath K_sqlite (partsToStr reservedL parts) = some parts :=
-  C04_identifier_partial _ _ _ phi4h_sqlite parts hne hp
+  C04_identifier_partial _ _ _ phi4h_sqlite parts hne fun p h => partOK_of_rep (hp p h)
 
 /-! ## witnesses: the model exhibits every known-finding class -/
 
@@ -239,10 +235,16 @@ theorem C04_witness_encode : ¬ C04_full_encode := by
   rw [hn] at hs
   exact absurd hs (by simp)
 
-/-- KF-C04-6: `primary_key` prints unquoted and is lexed as a keyword that is not an `id` -/
-theorem C04_witness_ident : ¬ C04_full_ident K_mindsdb reservedL := by
+/-- regression example for the repaired KF-C04-6 (fixed: 6326372): `primary_key` is printed back-quoted and read back -/
+theorem C04_witness_ident :
+    partsToStr reservedL [['p','r','i','m','a','r','y','_','k','e','y']] = ['`','p','r','i','m','a','r','y','_','k','e','y','`'] ∧
+    lexIdentPath K_mindsdb (partsToStr reservedL [['p','r','i','m','a','r','y','_','k','e','y']]) =
+      some [['p','r','i','m','a','r','y','_','k','e','y']] := by decide +kernel
+
+/-- KF-C04-7: a part containing a back-quote is not read back -/
+theorem C04_witness_backquote : ¬ C04_full_ident K_mindsdb reservedL := by
   intro h
-  have := h [['p','r','i','m','a','r','y','_','k','e','y']] (by decide) (by decide)
+  have := h [['a', '`', 'b']] (by decide) (by decide)
   revert this; decide +kernel
 
 /-! ## non-vacuity of the hypotheses -/
@@ -254,7 +256,7 @@ example : readString .mindsdb (srcLit '\'' [.ch 'i', .ch 't', .qq, .ch 's', .esc
     some (['i', 't', '\'', 's', '\\', 'n', '"'], [' ', 'x']) := by decide
 example : encOK ['i', 't', '\'', 's', ' ', '\\', 'n'] = true := by decide
 example : usesEscape [.ch 'a', .esc 'n'] = false := by decide
-example : Ident.PartOK kfWords_mindsdb ['s', 'e', 'l', 'e', 'c', 't'] ∧ Ident.PartOK kfWords_mindsdb ['a', '.', ' ', '1'] := by
-  refine ⟨⟨by decide, by decide, by decide⟩, ⟨by decide, by decide, by decide⟩⟩
+example : PartRep ['s', 'e', 'l', 'e', 'c', 't'] ∧ PartRep ['a', '.', ' ', '1'] := by
+  refine ⟨⟨by decide, by decide⟩, ⟨by decide, by decide⟩⟩
 
 end MindsVerif.Props.C04
